@@ -264,12 +264,17 @@ def run(ck):
         raise AnalysisError(f"{w}: result is not sorted(chain(pairs, unpaired)): {T.show(v)[:160]}")
     ck.ok("C12.3", short(align) + ":sorted-union", w, "result = sorted(pairs + unpaired) (ascending absolute position)")
     un = [x for x in parts if x[0] == "app" and "NotAligned" in x[1]]
-    pr = [x for x in parts if x is not (un[0] if un else None)]
+    inline_un = None
     if not un:
-        raise AnalysisError(f"{w}: unpaired-positions helper not found among {[T.show(x)[:40] for x in parts]}")
-    ua = dict(un[0][3])
+        # the helper was read through (moved / renamed / inlined): the part that builds NotAligned*Position objects is judged in place
+        cand_un = [x for x in parts if any(y[0] == "new" and "NotAligned" in y[1] for y in T.subterms(x))]
+        if len(cand_un) != 1:
+            raise AnalysisError(f"{w}: unpaired-positions helper not found among {[T.show(x)[:40] for x in parts]}")
+        inline_un = cand_un[0]
+    pr = [x for x in parts if x is not (un[0] if un else inline_un)]
     ck.judge(pr[0] == D, "C12.3", short(align) + ":returned-pairs", w, "the pairs returned are the de-duplicated ones",
              found=T.show(pr[0])[:120])
+    ua = dict(un[0][3]) if un else {"#R": R, "#Q": Q, "#D": D, "#S": start}
     uR = name_of(ua, lambda v: v == R)
     uQ = name_of(ua, lambda v: v == Q)
     uS = name_of(ua, lambda v: v == start)
@@ -294,23 +299,30 @@ def run(ck):
     ck.judge(bool(ok_q), "C12.3", short(align) + ":query-labels", w, "all labels of the query, on the requested strand",
              found=T.show(Q)[:120], required="list(query.getPositionsWithSiteIds(isReverse))")
     # ---- C12.1 reference window
-    if R is None or R[0] != "app":
+    if R is None:
         raise AnalysisError(f"{w}: reference window helper not found")
-    rw_fn = p.get_function(R[1])
-    ra = dict(R[3])
-    wREF, wS, wE = name_of(ra, lambda v: v == REF), name_of(ra, lambda v: v == start), name_of(ra, lambda v: v == end)
-    ck.judge(None not in (wREF, wS, wE), "C12.1", short(align) + ":window-args", w,
-             "the window helper receives reference, start and end unchanged", found=T.show(R)[:160])
-    if None in (wREF, wS, wE):
-        return
-    h_start, h_end, h_ref = V(wS), V(wE), V(wREF)
-    for pa in explore(ck, rw_fn):
-        if pa.outcome != "return":
-            continue
-        win = as_window(pa.value)
-        ww = where(rw_fn, pa.node)
+    if R[0] == "app":
+        rw_fn = p.get_function(R[1])
+        ra = dict(R[3])
+        wREF, wS, wE = name_of(ra, lambda v: v == REF), name_of(ra, lambda v: v == start), name_of(ra, lambda v: v == end)
+        ck.judge(None not in (wREF, wS, wE), "C12.1", short(align) + ":window-args", w,
+                 "the window helper receives reference, start and end unchanged", found=T.show(R)[:160])
+        if None in (wREF, wS, wE):
+            return
+        h_start, h_end, h_ref = V(wS), V(wE), V(wREF)
+        wins = [(pa.value, where(rw_fn, pa.node)) for pa in explore(ck, rw_fn) if pa.outcome == "return"]
+    else:
+        # the window helper was read through (moved / renamed / inlined): the window expression is judged in place
+        rw_fn = align
+        h_start, h_end, h_ref = start, end, REF
+        inner_R = R
+        while inner_R[0] == "call" and inner_R[1] in ("list", "tuple") and len(inner_R[2]) == 1:
+            inner_R = inner_R[2][0]
+        wins = [(inner_R, w)]
+    for wv, ww in wins:
+        win = as_window(wv)
         if win is None:
-            raise AnalysisError(f"{ww}: reference window idiom not recognised: {T.show(pa.value)[:200]}")
+            raise AnalysisError(f"{ww}: reference window idiom not recognised: {T.show(wv)[:200]}")
         want_lo, want_hi = T.p_sub(h_start, d), T.p_add(h_end, d)
         ck.judge(win["lo"] == want_lo and win["lo_incl"], "C12.1", short(rw_fn) + ":lower", ww,
                  "reference window includes labels at exactly start - maxDistance",
@@ -361,13 +373,19 @@ def run(ck):
                      "candidates are drawn from the query label list", found=T.show(win["src"])[:80])
     ck.floor("C12 candidate emissions", n_y, 1)
     # ---- C12.3 complement by siteId
-    un_fn = p.get_function(un[0][1])
-    for pa in explore(ck, un_fn):
-        if pa.outcome != "return":
-            continue
-        rv = pa.value
-        wu = where(un_fn, pa.node)
-        comps = [x for x in (rv[1] if rv[0] == "concat" else [rv]) if x[0] == "comp"]
+    if un:
+        un_fn = p.get_function(un[0][1])
+        E_R, E_Q, E_D, E_S = V(uR), V(uQ), V(uD), V(uS)
+        returns = [(pa.value, where(un_fn, pa.node)) for pa in explore(ck, un_fn) if pa.outcome == "return"]
+    else:
+        un_fn = align
+        E_R, E_Q, E_D, E_S = R, Q, D, start
+        returns = [(inline_un, w)]
+    for rv, wu in returns:
+        parts0 = list(rv[1] if rv[0] == "concat" else [rv])
+        # `<selection> if xs else []`: the selection (over an empty list it is empty anyway)
+        parts0 = [(x[2] if x[3] == ("list", ()) else x[3]) if x[0] == "select" and ("list", ()) in (x[2], x[3]) else x for x in parts0]
+        comps = [x for x in parts0 if x[0] == "comp"]
         if len(comps) == 1 and comps[0][2][0] == "new":
             missing = "query" if "Reference" in comps[0][2][1] else "reference"
             ck.violation("C12.3", short(un_fn) + ":both-sides", wu, f"unpaired {missing} labels are not returned: the pairing step no "
@@ -408,16 +426,16 @@ def run(ck):
                 from ..rules.common import expand_simple_apps
                 cond = expand_simple_apps(ck, cond)          # label numbers taken through a selector function
             okc = cond[0] == "notin" and cond[1] == T.mk_attr(bv, "siteId") and cond[2][0] == "comp" and \
-                cond[2][3][0][0] == V(uD) and cond[2][2] == T.mk_attr(T.mk_attr(cond[2][2][1][1], side), "siteId") \
+                cond[2][3][0][0] == E_D and cond[2][2] == T.mk_attr(T.mk_attr(cond[2][2][1][1], side), "siteId") \
                 if cond[0] == "notin" and cond[2][0] == "comp" and cond[2][2][0] == "attr" and cond[2][2][1][0] == "attr" else False
-            src_ok = it == V(uR if side == "reference" else uQ)
+            src_ok = it == (E_R if side == "reference" else E_Q)
             sides[side] = (okc, src_ok, c0)
             ck.judge(bool(okc) and src_ok, "C12.3", short(un_fn) + ":" + side, wu,
                      f"unpaired {side} labels = labels of the {side} list whose siteId is in no kept pair",
                      found=T.show(c0)[:200], required=f"[.. for x in {side}Positions if x.siteId not in [p.{side}.siteId for p in alignedPairs]]")
             if side == "query":
                 a = dict(elt[2])
-                vals = [v for k, v in a.items() if v == V(uS)]
+                vals = [v for k, v in a.items() if v == E_S]
                 ck.judge(bool(vals), "C12.3", short(un_fn) + ":query-offset", wu,
                          "unpaired query labels are placed with the same seed offset", found=str({k: T.show(v) for k, v in a.items()}))
         if deferred:
